@@ -35,8 +35,8 @@ pub fn at_quiescence(w: &mut World) -> VResult {
     crate::seqmon::at_quiescence(w)
 }
 
-pub fn draw_origin(_w: &mut World, _n: usize) -> Option<String> {
-    None
+pub fn draw_origin(w: &mut World, n: usize) -> Option<String> {
+    crate::undomon::draw_origin(w, n)
 }
 
 fn sp(n: usize, k: &str, a: Vec<u64>) -> Ev {
